@@ -11,6 +11,9 @@ use std::rc::Rc;
 pub struct Counters {
     pub pulls: Rc<Cell<usize>>,
     pub exhausted_queries: Rc<Cell<usize>>,
+    /// fault injection: when `Some(k)`, the call to `next()` made after exactly k counted pulls
+    /// panics once instead of yielding (nothing is consumed or counted), and the trip is cleared
+    pub trip: Rc<Cell<Option<usize>>>,
 }
 
 impl Counters {
@@ -39,6 +42,10 @@ impl<F: Frame> Probe<F> {
 impl<F: Frame> Signal for Probe<F> {
     type Frame = F;
     fn next(&mut self) -> F {
+        if self.c.trip.get() == Some(self.c.pulls.get()) {
+            self.c.trip.set(None);
+            panic!("injected source failure");
+        }
         self.c.pulls.set(self.c.pulls.get() + 1);
         let f = self.frames.get(self.pos).copied().unwrap_or(F::EQUILIBRIUM);
         self.pos += 1;
